@@ -215,6 +215,38 @@ def check_constructed(res, mtype, kw, exp, seen_serials):
                       % (PROP, diffs[0].split('=')[0].split()[0], key),
                       'parsing its own bytes for %r: %s'
                       % (rep['exp'], '; '.join(diffs)), rep, size=len(key))
+        return
+    # (c') a parsed message serialised again (what the bus does when it
+    # stamps the sender) is the same well-formed message, serial kept
+    res.count('transitions')
+    try:
+        m.sender = ':1.77'
+        m._marshal(False)
+        p2 = R.parse_message(m.rawMessage)
+        want_fields = dict(exp['fields'])
+        want_fields['sender'] = ':1.77'
+        if exp['sig']:
+            want_fields['signature'] = exp['sig']
+        probs = []
+        if p2['fields'] != want_fields:
+            probs.append('header fields %r, expected %r'
+                         % (p2['fields'], want_fields))
+        if p2['flags'] != exp['flags']:
+            probs.append('flags %d, expected %d' % (p2['flags'],
+                                                    exp['flags']))
+        if p2['serial'] != p['serial'] or p2['type'] != exp['type']:
+            probs.append('serial/type %r/%r' % (p2['serial'], p2['type']))
+        if p2['raw_body'] != p['raw_body']:
+            probs.append('body bytes changed')
+    except R.RefError as e:
+        probs = ['not well-formed: %s' % e]
+    except Exception as e:
+        probs = ['raised %r' % (e,)]
+    if probs:
+        res.violation('%s/reserialise/%s/%s' % (PROP, probs[0].split()[0],
+                                                key),
+                      'parsing and serialising %r again: %s'
+                      % (rep['exp'], '; '.join(probs)), rep, size=len(key))
 
 
 def field_orders(names, quick):
@@ -309,17 +341,27 @@ def _task_limits(_):
     from txdbus.error import MarshallingError
     fakes.reset_process_state()
     res = core.Result()
-    probe = M.MethodCallMessage('/p', 'M', signature='s', body=['x' * 10])
-    overhead = len(probe.rawMessage) - 10
     limit = 2**27
-    for total, must in ((limit, True), (limit + 1, False),
-                        (limit - 1, True), (limit + 8, False)):
+    cases = [('M', limit, True), ('M', limit + 1, False),
+             ('M', limit - 1, True), ('M', limit + 8, False)]
+    # every header padding 0..7: the limit is on the whole message,
+    # padding included
+    for ml in range(2, 9):
+        cases.append(('M' * ml, limit + 1, False))
+        cases.append(('M' * ml, limit, True))
+    overheads = {}
+    for member, total, must in cases:
         res.count('evaluations')
         res.count('transitions')
         res.count('states')
+        if member not in overheads:
+            probe = M.MethodCallMessage('/p', member, signature='s',
+                                        body=['x' * 10])
+            overheads[member] = len(probe.rawMessage) - 10
+        overhead = overheads[member]
         body = 'x' * (total - overhead)
         try:
-            m = M.MethodCallMessage('/p', 'M', signature='s', body=[body])
+            m = M.MethodCallMessage('/p', member, signature='s', body=[body])
             ok = len(m.rawMessage) == total
             built = True
             del m
@@ -338,8 +380,9 @@ def _task_limits(_):
         elif built != must or not ok:
             res.violation('%s/limit/%s' % (PROP, 'refused-at-limit' if must
                                            else 'accepted-beyond-limit'),
-                          'a message of %d bytes (limit 2**27 = %d) was %s'
-                          % (total, limit,
+                          'a message of %d bytes (limit 2**27 = %d; member '
+                          'length %d, i.e. header padding varies) was %s'
+                          % (total, limit, len(member),
                              'constructed' if built else 'refused'),
                           {'part': 'limit', 'total': total}, size=1)
         res.outcome(('limit', total - limit, built))
